@@ -338,6 +338,13 @@ def c14(hist, stats=None):
         check('poll', pseq, snap, False)
     if run.post:
         check('after-run', run.seq_returned, run.post, True)
+    if getattr(run, 'post2', None):
+        if '__error__' in run.post2:
+            out.append(Violation('C14', 'inspection-after-run-raises', '-',
+                                 run.post2['__error__'][1]))
+        else:
+            check('after-run-and-inspection', run.seq_returned, run.post2,
+                  True)
     # report each (clause, site, node) once
     seen, uniq = set(), []
     for v in out:
